@@ -113,6 +113,10 @@ class AtomsEngine(Engine):
         if k == 7:
             return name[1:]  # suffix
         if k == 8:
+            if rng.random() < 0.4:
+                # punctuation that means something to a pattern matcher / a CSV reader
+                suffix = rng.choice([".", "?", "*", "+", "{1}", "|", ".*", "$", "\\d", "(", "[", ";", "\"", "'"])
+                return name + suffix if rng.random() < 0.7 else name[:-1] + suffix
             return name + rng.choice("abcdefgHX0123456789,")
         if k == 9:
             digits = "".join(ch for ch in name if ch.isdigit())
@@ -239,6 +243,8 @@ class AtomsEngine(Engine):
         if rng.random() < 0.15:
             # legacy-locale deployment: open() without encoding= is strict ASCII (core.apply_process_env)
             scn["locale"] = "C"
+        if rng.random() < 0.12:
+            scn["logging"] = rng.choice(["INFO", "DEBUG"])  # the application has logging switched on
         return scn
 
     # ---------------------------------------------------------------- execute
